@@ -32,11 +32,55 @@ def print_children(objs, v, out):
                 continue        # null values are not written (a reference to a null/absent object is null)
             print_children(objs, x, out)
     elif isinstance(v, Stream):
-        d = {k: x for k, x in v.d.items() if k != b"Length"}
+        drop = (b"Length",) if getattr(v, "_keep_params", True) else (b"Length", b"Filter", b"DecodeParms")
+        d = {k: x for k, x in v.d.items() if k not in drop}
         print_children(objs, d, out)
 
 
-def queue_case(objs, trailer):
+def has_ref(v):
+    if isinstance(v, Ref):
+        return True
+    if isinstance(v, list):
+        return any(has_ref(x) for x in v)
+    if isinstance(v, dict):
+        return any(has_ref(x) for x in v.values())
+    return False
+
+
+def pair_refs(va, vb, A, B, out, depth=0):
+    """stream parameters are not visited by the isomorphism (the writer owns them); where the writer kept them, pair the
+    indirect objects behind them positionally so that the renumbering tie covers them too"""
+    if depth > 20:
+        return
+    if isinstance(va, Ref) and isinstance(vb, Ref):
+        if (va.n, va.g) in out:
+            return
+        out[(va.n, va.g)] = (vb.n, vb.g)
+        pair_refs(A.get((va.n, va.g)), B.get((vb.n, vb.g)), A, B, out, depth + 1)
+    elif isinstance(va, list) and isinstance(vb, list):
+        for x, y in zip(va, vb):
+            pair_refs(x, y, A, B, out, depth + 1)
+    elif isinstance(va, dict) and isinstance(vb, dict):
+        for k in va:
+            if k in vb:
+                pair_refs(va[k], vb[k], A, B, out, depth + 1)
+
+
+def queue_case(objs, trailer, B=None, a2b=None):
+    """B, a2b: the real output and the isomorphism found; a stream that the writer re-filtered has new /Filter /DecodeParms, so
+    indirect objects behind the old ones are not written (unparseObject): whether that happened is read off the output"""
+    if B is not None:
+        objs = dict(objs)
+        for key, v in list(objs.items()):
+            if isinstance(v, Stream) and (has_ref(v.d.get(b"Filter")) or has_ref(v.d.get(b"DecodeParms"))):
+                w = B.get(a2b.get(key)) if a2b.get(key) is not None else None
+                kept = isinstance(w, Stream) and (has_ref(w.d.get(b"Filter")) or has_ref(w.d.get(b"DecodeParms")))
+                v2 = Stream(dict(v.d), v.data)
+                v2._keep_params = kept
+                if kept:
+                    for pk in (b"Filter", b"DecodeParms"):
+                        pair_refs(v.d.get(pk), w.d.get(pk), objs, B, a2b)
+                objs[key] = v2
     roots = []
     r = trailer.get(b"Root")
     if isinstance(r, Ref):
@@ -156,7 +200,7 @@ def run(chk):
             nontriv.add((name, filecheck.config_name(cfg)))
         # renumbering tie: plain modes only (no object streams, not linearized, not qdf: numbers are first-encounter order)
         if "--object-streams=disable" in cfg and "--linearize" not in cfg and "--qdf" not in cfg and kind == "generated":
-            line, ids = queue_case(A, Atr)
+            line, ids = queue_case(A, Atr, B, a2b)
             qlines.append(line)
             qmeta.append((case, ids, a2b))
     qres = common.run_lines(runner, qlines)
